@@ -65,6 +65,7 @@ def run(ck: Checker, prog: Program, tier: str):
     with ck.borrow(c07, P + "R6+"):
         c07._PROG[0] = prog
         ck.guard(c07._saf, ck, prog)
+        ck.guard(c07._read_single, ck, prog)      # the deployed orientation of the file reaches the recording (None is passed on)
     # invariance of the bound formulas presupposes that ns and ew reach them through the same taper and transform
     from . import c01
     with ck.borrow(c01, "C04.R3+"):
